@@ -23,6 +23,10 @@ class HistoricallyTimedOperation(AbstractDenseTimeOnlineOperation):
         begin = self.begin
         end = self.end
 
+        # an operand may report the instant at which its previous batch ended once more
+        if sample and sample[0][0] == self.residual_start:
+            sample = sample[1:]
+
         if sample:
             # update when the residuals start in this iteration
             self.residual_start = sample[-1][0]
